@@ -456,7 +456,8 @@ def filt (prop : String) (f : Fail) : Fail :=
   | none => none
 
 /-- one step: the op, what the implementation showed, and the model's new ghost events -/
-def observe (prop : String) (m : MonState) (op : Op) (o : Obs) (ghosts : List Ghost) : MonState × Fail :=
+def observe (prop : String) (m : MonState) (op : Op) (o : Obs) (ghosts : List Ghost)
+    (behalf : Option Nat := none) : MonState × Fail :=
   let m := { m with t := m.t + 1 }
   match o with
   | .panic => (m, filt prop (some ("router-panic", "the routing core panicked")))
@@ -470,8 +471,19 @@ def observe (prop : String) (m : MonState) (op : Op) (o : Obs) (ghosts : List Gh
         -- a new link: fresh monitor state for it
         (setL m spec.link { clientId := spec.clientId, clean := spec.clean }, none)
       | _, _ => (m, none)
+    -- C14 (last sentence): a signal sent on behalf of a connection that has ended (link `behalf`)
+    -- must not act on the connection that now owns the slot id
+    let f0 : Fail := match op, behalf with
+      | .event id .disconnect, some l =>
+        match linkOfConn m id with
+        | some owner =>
+          if owner != l && ghosts.any (fun g => match g with | .removed id' _ _ => id' == id | _ => false) then
+            some ("c14-stale-signal-acted", s!"Disconnect of the ended connection of link {l} removed the later connection of link {owner} that reuses slot id {id}")
+          else none
+        | none => none
+      | _, _ => none
     let (m, f2) := applyGhosts m ghosts none
-    (m, filt prop (if f1.isSome then f1 else f2))
+    (m, filt prop (if f0.isSome then f0 else if f1.isSome then f1 else f2))
 
 /-- checks at a point where the harness drove the router to idle and every client acknowledged -/
 def atIdle (prop : String) (m : MonState) : Fail :=
